@@ -16,6 +16,7 @@ mod net;
 mod netoracle;
 mod netw;
 mod oracles;
+mod tamper;
 mod registry;
 mod rng;
 mod runner;
